@@ -134,7 +134,7 @@ DEFAULT_W = {
     "tuplet": 0.25, "dots": 0.3, "chord": 0.2, "rest": 0.15, "tie": 0.15, "grace": 0.06, "beam": 0.3,
     "mrest": 0.1, "space": 0.08, "two_layers": 0.35, "meter_change": 0.15, "key_change": 0.15,
     "repeat": 0.15, "ending": 0.1, "pickup": 0.15, "short_layer": 0.1, "small": 0.35, "inner_dots": 0.3,
-    "alter": 0.4, "explicit_natural": 0.15,
+    "alter": 0.4, "explicit_natural": 0.15, "kern_chord_tie": 0.02,
 }
 METERS = [(4, 4), (3, 4), (2, 4), (6, 8), (3, 8), (2, 2), (5, 4), (5, 8), (9, 8), (3, 2), (7, 8), (3, 16), (12, 8)]
 
@@ -228,13 +228,16 @@ def fill_layer(rng, w, length, fmt, meter):
             break
         if rng.random() < w["tuplet"]:
             num, base = rng.choice(TUPLETS)
-            vs = [v for v in (2, 4, 8, 16, 32) if base * den_dur(v, 0, None) <= rem
-                  and (fmt != "kern" or all(kern_recip_ok(x, (num, base)) for x in (v // 2 if v >= 2 else v, v, v * 2)))]
+            vs = [v for v in (2, 4, 8, 16, 32) if base * den_dur(v, 0, None) <= rem]
             if vs:
                 v = rng.choice(vs)
-                nodes.append(gen_tuplet(rng, w, num, base, v, fmt))
-                rem -= base * den_dur(v, 0, None)
-                continue
+                tp = gen_tuplet(rng, w, num, base, v, fmt)
+                # kern writes a tuplet value as the integer reciprocal v*num/numbase (3 = triplet half, 12 = triplet
+                # eighth); groups containing a value without such an integer are not generated for kern
+                if fmt != "kern" or all(kern_recip_ok(e["v"], (num, base)) for e in tp["items"]):
+                    nodes.append(tp)
+                    rem -= base * den_dur(v, 0, None)
+                    continue
         if not small:
             cands = [c for c in cands if c[0] <= 16] or cands
         if rng.random() >= w["dots"]:
@@ -344,7 +347,11 @@ def gen_doc(rng, fmt, w=None, nmeas=None, nstaves=None):
             in_ending = m["ending"]
         for s in range(nst):
             layers = []
-            nl = 2 if rng.random() < w["two_layers"] else 1
+            if w.get("uniform_layers"):
+                # export direction: a layer absent from a measure is filled by fill_rests (C11's subject) -> keep layers uniform
+                nl = doc["measures"][0]["content"][s].__len__() if doc["measures"] else (2 if rng.random() < w["two_layers"] else 1)
+            else:
+                nl = 2 if rng.random() < w["two_layers"] else 1
             for li in range(nl):
                 full = length == F(4 * meter[0], meter[1])
                 if fmt == "mei" and full and rng.random() < w["mrest"]:
@@ -396,7 +403,9 @@ def add_ties(rng, w, doc):
                     continue
                 if a["k"] in ("n", "c") and b["k"] in ("n", "c") and not a.get("g") and not b.get("g"):
                     if fmt == "kern" and (a["k"] == "c" or b["k"] == "c"):
-                        continue
+                        # the kern loader documents ties on chords as "not handled yet" (finding C19-K1)
+                        if not (a["k"] == "c" and b["k"] == "c" and len(a["p"]) == len(b["p"]) and rng.random() < w.get("kern_chord_tie", 0.0)):
+                            continue
                     if rng.random() < w["tie"]:
                         a["tie"] = True
                         b["p"] = [list(p) for p in a["p"]]
@@ -686,9 +695,10 @@ def write_kern(doc):
                 bar += "|:"
             row([bar] * sum(width))
         # adjust sub-spines: merges first (old widths), then splits (widths after merging)
-        if any(want[s] < width[s] for s in range(nst)):
-            row(sum([["*v", "*v"] if want[s] < width[s] else ["*"] * width[s] for s in range(nst)], []))
-            width = [min(width[s], want[s]) for s in range(nst)]
+        for s0 in range(nst):  # one merge per line (adjacent "*v" groups of different spines would be ambiguous)
+            if want[s0] < width[s0]:
+                row(sum([["*v", "*v"] if s == s0 else ["*"] * width[s] for s in range(nst)], []))
+                width[s0] = want[s0]
         if any(want[s] > width[s] for s in range(nst)):
             row(sum([["*^"] if want[s] > width[s] else ["*"] * width[s] for s in range(nst)], []))
         width = list(want)
@@ -725,8 +735,10 @@ def write_kern(doc):
             row(cells)
     if o["final_barline"]:
         row(["=="] * sum(width))
-    if any(w_ > 1 for w_ in width):
-        row(sum([["*v", "*v"] if width[s] > 1 else ["*"] for s in range(nst)], []))
+    for s0 in range(nst):
+        if width[s0] > 1:
+            row(sum([["*v", "*v"] if s == s0 else ["*"] * width[s] for s in range(nst)], []))
+            width[s0] = 1
     row(["*-"] * nst)
     return "\n".join(lines) + "\n"
 
@@ -740,7 +752,7 @@ def kern_token(e, tie_state, o):
     toks = []
     for p in e["p"]:
         pre = post = ""
-        if tie_state is not None and e["k"] == "n":
+        if tie_state is not None:
             if tie_state[0] and e.get("tie"):
                 post = "_"
             elif tie_state[0]:
@@ -749,7 +761,7 @@ def kern_token(e, tie_state, o):
                 pre = "["
         toks.append(pre + rec + kern_pitch(p) + post)
     if tie_state is not None:
-        tie_state[0] = bool(e.get("tie")) and e["k"] == "n"
+        tie_state[0] = bool(e.get("tie"))
     return " ".join(toks)
 
 
@@ -952,7 +964,7 @@ def fmt_any(x):
 SYM = {1: "whole", 2: "half", 4: "quarter", 8: "eighth", 16: "16th", 32: "32nd", 64: "64th", 128: "128th", 256: "256th"}
 
 EXPORT_W = {"space": 0.0, "mrest": 0.0, "short_layer": 0.0, "grace": 0.0, "pickup": 0.0, "meter_change": 0.0,
-            "key_change": 0.0, "repeat": 0.0, "ending": 0.0, "explicit_natural": 0.0}
+            "key_change": 0.0, "repeat": 0.0, "ending": 0.0, "explicit_natural": 0.0, "uniform_layers": 1}
 
 
 def build_part(doc):
@@ -1064,3 +1076,407 @@ def export_roundtrip(doc, fmt):
     with open(path) as f:
         text = f.read()
     return ("ok", rows, sorted(got), text)
+
+
+# --------------------------------------------------------------------------
+# Coq terms
+
+
+def c_event(e):
+    t = e.get("t") or (1, 1)
+    ps = clist([ctuple([cz(STEPS.index(p[0])), cz(a0(p[1])), cz(p[2])]) for p in e.get("p", [])])
+    return "(Ev %s %s %d%%nat %s %s %s %s %s)" % (
+        cz(KIND_CODE[e["k"]]), cz(e.get("v", 1)), e.get("d", 0), cz(t[0]), cz(t[1]),
+        cbool(e.get("g")), cbool(e.get("tie")), ps)
+
+
+def c_doc(doc):
+    meter = tuple(doc["meter"])
+    ms = []
+    for m in doc["measures"]:
+        if m.get("meter"):
+            meter = tuple(m["meter"])
+        staves = clist([clist([clist([c_event(e) for e in flat(layer)]) for layer in st]) for st in m["content"]])
+        ms.append("(Me %s %s)" % (cq(F(4 * meter[0], meter[1])), staves))
+    return clist(ms)
+
+
+def c_observed(doc, obs):
+    """Observed per staff: (divs, layers [[(onset, dur, ticks)]], joined [[(onset, dur)]], measure starts)."""
+    den = denote(doc)
+    out = []
+    for si, ob in enumerate(obs):
+        dv = ob["divs"][0]
+        lays, joins = [], []
+        for li in range(2):
+            ns = [n for n in ob["notes"] if n["voice"] == li + 1]
+            rows = sorted({(n["start"], 0 if n["kind"] == "g" else 1, n["end"]) for n in ns})
+            lays.append(clist([ctuple([cq(F(a, dv)), cq(F(b - a, dv)), cz(b - a)]) for a, _, b in rows]))
+            jr = sorted({(n["start"], n["dur_tied"]) for n in ns if n["kind"] == "n" and not n["tp"]})
+            joins.append(clist([ctuple([cq(F(a, dv)), cq(F(d, dv))]) for a, d in jr]))
+        mst = sorted(F(m[0], dv) for m in ob["measures"] if not (m[1] is not None and m[0] == m[1] and F(m[0], dv) >= den["end"]))
+        out.append(ctuple([cz(dv), clist(lays), clist(joins), clist([cq(x) for x in mst])]))
+    return clist(out)
+
+
+def c_case(doc, obs):
+    return ctuple([cbool(doc["fmt"] == "mei"), c_doc(doc), c_observed(doc, obs)])
+
+
+KERN_ACC_CODE = {None: 0, 1: 1, 2: 2, -1: 3, -2: 4, 0: 5}
+
+
+# --------------------------------------------------------------------------
+# features / shrinking / known findings
+
+
+def features(doc):
+    f = set()
+    f.add("staves:%d" % len(doc["staves"]))
+    f.add("measures:%d" % len(doc["measures"]))
+    for m in doc["measures"]:
+        for k in ("meter", "key", "left", "right", "ending", "pickup"):
+            if m.get(k):
+                f.add(k if k not in ("meter", "key") else k + "_change")
+        for st in m["content"]:
+            if len(st) > 1:
+                f.add("two_layers")
+            for layer in st:
+                for nd in layer:
+                    if "beam" in nd:
+                        f.add("beam")
+                for e in flat(layer):
+                    f.add({"n": "note", "c": "chord", "r": "rest", "m": "mrest", "s": "space"}[e["k"]])
+                    if e.get("d"):
+                        f.add("dots%d" % e["d"])
+                    if e.get("t"):
+                        f.add("tuplet%d:%d" % e["t"])
+                        if e.get("d"):
+                            f.add("dotted_tuplet")
+                    if e.get("tie"):
+                        f.add("tie")
+                        if e["k"] == "c":
+                            f.add("chord_tie")
+                    if e.get("g"):
+                        f.add("grace")
+    for k, v in doc["opts"].items():
+        if isinstance(v, (str, bool)) and k not in ("ext",):
+            f.add("%s=%s" % (k, v))
+    return f
+
+
+def has_tied_chord(doc):
+    return "chord_tie" in features(doc)
+
+
+def check_import(doc, loader="load_score", name="doc"):
+    """Write, load, compare: returns (status, obs_or_text, bad list)."""
+    path, text = write_doc(doc, name)
+    st, obs = load(path, loader)
+    if st == "err":
+        return "err", obs, [("load", obs)], text
+    return "ok", obs, compare(doc, obs), text
+
+
+def shrink_import(doc, loader, clauses):
+    """ddmin over measures, then staves (kern documents keep whole measures: spines must stay aligned)."""
+    import copy
+
+    def fails(d):
+        try:
+            st, _, bad, _ = check_import(d, loader, "shrink")
+        except Exception:
+            return False
+        return bool(bad) and bool({b[0] for b in bad} & clauses)
+
+    def with_measures(ms):
+        d = copy.deepcopy(doc)
+        d["measures"] = copy.deepcopy(ms)
+        # keep meter/key declarations meaningful: a dropped change moves to the document head
+        return d
+    cur = doc
+    if len(doc["measures"]) > 1 and not any(m.get("meter") or m.get("ending") for m in doc["measures"]):
+        ms = core.ddmin(doc["measures"], lambda sub: fails(with_measures(sub)))
+        cur = with_measures(ms)
+    while len(cur["staves"]) > 1:
+        for si in range(len(cur["staves"])):
+            d = copy.deepcopy(cur)
+            del d["staves"][si]
+            for m in d["measures"]:
+                del m["content"][si]
+            if fails(d):
+                cur = d
+                break
+        else:
+            break
+    if cur["fmt"] == "mei":
+        for mi in range(len(cur["measures"])):
+            for si in range(len(cur["staves"])):
+                for li in range(len(cur["measures"][mi]["content"][si])):
+                    nodes = cur["measures"][mi]["content"][si][li]
+                    if len(nodes) < 2:
+                        continue
+
+                    def sub_doc(sub):
+                        d = copy.deepcopy(cur)
+                        d["measures"][mi]["content"][si][li] = copy.deepcopy(sub)
+                        for m in d["measures"]:  # ties may lose their partner: drop them unless still adjacent
+                            pass
+                        return d
+                    if any(e.get("tie") for m in cur["measures"] for st in m["content"] for l in st for e in flat(l)):
+                        continue
+                    sub = core.ddmin(nodes, lambda s_: fails(sub_doc(s_)))
+                    cur = sub_doc(sub)
+    return cur
+
+
+def register_matchers(ctx):
+    # C19-K1: kern ties whose notes are chord members are not joined (importkern.py documents
+    # "Case of note to chord tie or chord to note tie is not handled yet"; chord members are parsed with add=False)
+    ctx.matchers["C19-K1"] = lambda r: (
+        r.get("dir") == "import" and r.get("doc", {}).get("fmt") == "kern"
+        and set(r.get("clauses", [])) <= {"ties", "note_array"} and bool(r.get("clauses"))
+        and has_tied_chord(r["doc"]))
+
+
+# --------------------------------------------------------------------------
+# the check
+
+
+def gen():
+    return None
+
+
+def run(ctx):
+    ctx.rule = ("Abstract documents (1-3 staves/spines x 1-2 layers x 1-4 measures; notes, chords, rests, measure rests, spaces, "
+                "beams, tuplets 3:2 5:4 6:4 7:4 incl. dotted values inside tuplets, values whole..64th (128th/256th filler rests), "
+                "0-2 dots, ties incl. across barlines and on chords, grace notes, meter/key changes, pickups, repeats, endings, "
+                "meter/key/clef as attributes or children of staffDef/scoreDef; kern: spines, *^/*v sub-spines, reciprocal tuplet "
+                "values, tandem clef/meter/key/staff lines) drawn from VERIF_SEED, written by this module's own MEI/kern writers, "
+                "loaded by load_score/load_mei/load_kern.  Distinct non-trivial = distinct document text whose document has at "
+                "least one of: dots, tuplet, tie, grace, chord, two layers, >1 staff, meter/key change.  Export direction: parts "
+                "built from abstract documents, save_mei/save_kern, load_score.")
+    ctx.trusted = ["Coq 8.16.1 kernel incl. vm_compute",
+                   "harness/props/c19.py: generator, the independent MEI/kern writers, denotation transcription (oracle), observer",
+                   "lxml / numpy text parsing inside partitura is exercised, not modelled"]
+    ctx.assumptions = ["MEI without verovio (the use_verovio path is taken only when verovio imports; it does not here)",
+                       "note-array onsets compared relative to the first row (pickup origin convention belongs to C02/C05), f4 tolerance 1e-4",
+                       "kern float arithmetic (isclose/ceil) is modelled in exact rationals; a float artefact would show as a correspondence failure",
+                       "a zero-length measure after the final kern barline is ignored"]
+    register_matchers(ctx)
+    ok, why = ctx.coq_props(expect_min=14)
+    quick = ctx.tier == "quick"
+    n_docs = {"mei": 150 if quick else 3000, "kern": 150 if quick else 3000}
+    n_exp = 60 if quick else 800
+    n_viol = 0
+    coq_cases, coq_docs = [], []
+    ppq_cases = []
+    pitch_cases = {}
+    corpus = load_corpus()
+    for fmt in ("mei", "kern"):
+        todo = [d for d in corpus if d["fmt"] == fmt]
+        ctx.count("corpus:%s" % fmt, len(todo))
+        for i in range(n_docs[fmt]):
+            w = {}
+            r = ctx.rng.random()
+            if r < 0.15:   # stress rhythm: many tuplets and dots
+                w = {"tuplet": 0.5, "dots": 0.5, "inner_dots": 0.8}
+            elif r < 0.25:  # plain documents (bisecting aid: only basic features)
+                w = {"tuplet": 0, "grace": 0, "space": 0, "mrest": 0, "short_layer": 0, "tie": 0.05}
+            elif r < 0.35:
+                w = {"tie": 0.5, "grace": 0.15}
+            todo.append(gen_doc(ctx.rng, fmt, w))
+        for di, doc in enumerate(todo):
+            loader = "load_score" if (di % 4) else ("load_mei" if fmt == "mei" else "load_kern")
+            st, obs, bad, text = check_import(doc, loader)
+            ctx.evaluations += 1
+            fs = features(doc)
+            for f_ in fs:
+                ctx.count("%s:%s" % (fmt, f_))
+            ctx.count("%s:loader=%s" % (fmt, loader))
+            if fs & {"dots1", "dots2", "tie", "grace", "chord", "two_layers", "staves:2", "staves:3", "meter_change", "key_change"} or any(x.startswith("tuplet") for x in fs):
+                ctx.nontrivial(text)
+            if di < 2:
+                ctx.sample({"format": fmt, "file": text[:1500], "loaded": "ok" if st == "ok" else obs})
+            if bad:
+                clauses = {b[0] for b in bad}
+                small = doc
+                if n_viol < 6:
+                    try:
+                        small = shrink_import(doc, loader, clauses)
+                    except Exception:
+                        small = doc
+                st2, obs2, bad2, text2 = check_import(small, loader, "shrunk")
+                if not bad2:
+                    small, bad2, text2 = doc, bad, text
+                res = ctx.violation("%s document loaded by %s differs from what its notation denotes [%s]: %s"
+                                    % (fmt, loader, ",".join(sorted({b[0] for b in bad2})), bad2[0][1][:400]),
+                                    {"dir": "import", "doc": small, "loader": loader, "clauses": sorted({b[0] for b in bad2}),
+                                     "text": text2, "mismatch": [b[1] for b in bad2[:5]]})
+                if res != "known":
+                    n_viol += 1
+                if n_viol >= 12:
+                    break
+                continue
+            coq_cases.append(c_case(doc, obs))
+            coq_docs.append((doc, loader, text))
+            if fmt == "mei" and doc["opts"].get("ppq") != "declared":
+                evs = [e for m in doc["measures"] for st_ in m["content"] for layer in st_ for e in flat(layer) if e["k"] != "m"]
+                units = [doc["meter"][1]] + [m["meter"][1] for m in doc["measures"] if m.get("meter")]
+                ppq_cases.append(ctuple([clist([cz(u) for u in units]), clist([c_event(e) for e in evs]), cz(obs[0]["divs"][0])]))
+            if fmt == "kern":
+                for m in doc["measures"]:
+                    for st_ in m["content"]:
+                        for layer in st_:
+                            for e in flat(layer):
+                                for p in e.get("p", []):
+                                    letters = kern_pitch([p[0], None, p[2]])
+                                    pitch_cases[(letters, KERN_ACC_CODE[p[1]])] = (STEPS.index(p[0]), a0(p[1]), p[2])
+    # ---- correspondence with the Coq model
+    if ok:
+        try:
+            failing = ctx.coq_failing("doc", "From PV Require Import Model.C19.", "", coq_cases,
+                                      "fun c => match c with (mei, ms, st) => check_doc mei ms st end", shard=150)
+        except RuntimeError as ex:
+            failing = None
+            ctx.obligation("correspondence: Model.C19 denotation = loaded score", False, str(ex)[-800:])
+            ctx.violation("the Coq model could not be evaluated on the generated documents: " + str(ex)[-600:], {"coq": str(ex)[-1500:]}, no_input=True)
+        if failing is not None:
+            ctx.obligation("correspondence: Model.C19 denotation (onsets, durations, exact ticks by the MEI/kern formulas, joined ties, "
+                           "measure starts) = loaded score on %d documents" % len(coq_cases), not failing, failing[:5])
+            for i in failing[:5]:
+                doc, loader, text = coq_docs[i]
+                ctx.violation("Coq model and loaded score disagree on a document the Python oracle accepts (model drift or loader change)",
+                              {"dir": "import", "doc": doc, "loader": loader, "clauses": ["model"], "text": text})
+        if ppq_cases:
+            f2 = ctx.coq_failing("ppq", "From PV Require Import Model.C19.", "", ppq_cases,
+                                 "fun c => match c with (units, evs, divs) => Z.eqb (find_ppq units evs) divs end", shard=300)
+            ctx.obligation("correspondence (informational, not a property observable): Model.C19.find_ppq = the ppq inferred by load_mei on %d documents"
+                           % len(ppq_cases), not f2, f2[:5])
+        if pitch_cases:
+            items = sorted(pitch_cases.items())
+            terms = [ctuple([core.cstr(k[0]), cz(k[1]), cz(v[0]), cz(v[1]), cz(v[2])]) for k, v in items]
+            f3 = ctx.coq_failing("pitch", "From PV Require Import Model.C19.", "", terms, "check_kern_pitch", shard=500)
+            ctx.obligation("correspondence: Model.C19.kern_pitch/kern_alter = spelling loaded by load_kern for %d distinct pitch tokens" % len(terms),
+                           not f3, [items[i] for i in f3[:5]])
+            for i in f3[:3]:
+                ctx.violation("kern pitch token %r loads as %r, the model's letter rule gives something else" % (items[i][0], items[i][1]),
+                              {"dir": "pitch", "token": list(items[i][0]), "loaded": list(items[i][1])})
+    else:
+        ctx.violation("proof obligations of Props/C19.v no longer check: " + why, {"theorem_or_build": why}, no_input=True)
+    # ---- export direction
+    run_export(ctx, n_exp)
+    # ---- dispatch by extension (negative side): an unknown extension is rejected, not guessed
+    import partitura as pt
+    p = os.path.join(work_dir(), "x.c19unknown")
+    with open(p, "w") as f:
+        f.write("**kern\n4c\n*-\n")
+    try:
+        pt.load_score(p)
+        ctx.violation("load_score accepted a file with an unknown extension", {"dir": "dispatch", "path": p})
+    except Exception:
+        pass
+    ctx.evaluations += 1
+
+
+def run_export(ctx, n):
+    for fmt in ("mei", "kern"):
+        nv = 0
+        for i in range(n):
+            w = dict(EXPORT_W)
+            if ctx.rng.random() < 0.3:
+                w.update({"tuplet": 0.0})
+            doc = gen_doc(ctx.rng, "kern" if fmt == "kern" else "mei", w)
+            r = export_roundtrip(doc, fmt)
+            ctx.evaluations += 1
+            ctx.count("export:%s" % fmt)
+            if r[0] == "ok" and r[1] == r[2]:
+                if len(r[1]) > 1:
+                    ctx.nontrivial("export" + r[3])
+                if i < 1:
+                    ctx.sample({"export": fmt, "file": r[3][-1200:]})
+                continue
+            if r[0] == "builderr":
+                raise RuntimeError("harness could not build the part: " + r[1])
+            if r[0] == "err":
+                what = "save_%s / reload raised %s" % (fmt, r[1])
+                det = {"error": r[1]}
+            else:
+                miss = [x for x in r[1] if x not in r[2]][:3]
+                extra = [x for x in r[2] if x not in r[1]][:3]
+                what = "save_%s then load_score changed notes: %d before / %d after; only before %s; only after %s (onset, duration, pitch, staff)" % (
+                    fmt, len(r[1]), len(r[2]), fmt_any(miss), fmt_any(extra))
+                det = {"before_only": fmt_any(miss), "after_only": fmt_any(extra), "file": r[3]}
+            small = shrink_export(doc, fmt) if nv < 3 else doc
+            ctx.violation(what[:600], dict({"dir": "export", "fmt": fmt, "doc": small}, **det))
+            nv += 1
+            if nv >= 6:
+                break
+
+
+def shrink_export(doc, fmt):
+    import copy
+
+    def fails(d):
+        try:
+            r = export_roundtrip(d, fmt)
+        except Exception:
+            return False
+        return r[0] == "err" or (r[0] == "ok" and r[1] != r[2])
+    cur = doc
+    if len(doc["measures"]) > 1:
+        def wm(ms):
+            d = copy.deepcopy(doc)
+            d["measures"] = copy.deepcopy(ms)
+            return d
+        cur = wm(core.ddmin(doc["measures"], lambda sub: fails(wm(sub))))
+    while len(cur["staves"]) > 1:
+        for si in range(len(cur["staves"])):
+            d = copy.deepcopy(cur)
+            del d["staves"][si]
+            for m in d["measures"]:
+                del m["content"][si]
+            if fails(d):
+                cur = d
+                break
+        else:
+            break
+    return cur
+
+
+def load_corpus():
+    d = os.path.join(core.VERIF, "corpus", "C19")
+    out = []
+    if os.path.isdir(d):
+        for fn in sorted(os.listdir(d)):
+            if fn.endswith(".json"):
+                with open(os.path.join(d, fn)) as f:
+                    out.append(json.load(f))
+    return out
+
+
+def replay(obj):
+    r = obj.get("replay", obj)
+    print(json.dumps({k: v for k, v in r.items() if k not in ("text", "file")}, indent=1, default=str)[:6000])
+    if r.get("dir") == "import":
+        st, obs, bad, text = check_import(r["doc"], r.get("loader", "load_score"), "replay")
+        print("---- file written by the harness writer:\n" + text)
+        print("---- loaded:", st if st == "ok" else obs)
+        if st == "ok":
+            for ob in obs:
+                print(json.dumps({k: ob[k] for k in ("id", "divs", "measures", "ts", "ks", "clefs")}, default=str))
+                for n in ob["notes"]:
+                    print("   ", n)
+        print("---- expected (denotation) vs loaded:", "agree" if not bad else "")
+        for b in bad:
+            print("   MISMATCH [%s] %s" % b)
+    elif r.get("dir") == "export":
+        res = export_roundtrip(r["doc"], r["fmt"])
+        print("---- export round trip:", res[0])
+        if res[0] == "ok":
+            print(res[3])
+            print("before:", [tuple(map(str, x)) for x in res[1]])
+            print("after: ", [tuple(map(str, x)) for x in res[2]])
+        else:
+            print(res[1])
+    return 0
